@@ -8,7 +8,7 @@ from ..selftest import Mutant
 
 ID = "C34"
 TECHNIQUE = "writer/reader key-table extraction and comparison (K6) between import_commit / export_commit and the roundtrip metadata codec (ast)"
-FLOOR = 14
+FLOOR = 33
 MP = "breezy/git/mapping.py"
 RT = "breezy/git/roundtrip.py"
 EXPLANATION = """
